@@ -93,7 +93,12 @@ Related(ea, eb) ==
                            i \in {k \in DOMAIN ea.post.edges : ea.post.edges[k].p \in below}}
                 edb == {<<eb.post.nodes[eb.post.edges[i].p].space, eb.post.nodes[eb.post.edges[i].c].space>> : i \in DOMAIN eb.post.edges}
                 atA == UNION {{SeqToSet(ea.post.nodes[i].sets.v[k]) : k \in DOMAIN ea.post.nodes[i].sets.v} : i \in below}
-            IN (IF na = IdFreeNodes(eb.post, Id) /\ eda = edb THEN {} ELSE {"ISO"})
+                \* "the node for that input valuation": the node of a whose space is the root space of b.  Under full BFS / DFS
+                \* it must exist; block expansion fixes all source variables of the percolated root at once (also those that
+                \* became sources by percolating constants), so the node of a single input valuation may not exist - then only
+                \* the attractors below the valuation are compared
+                hasval == \E i \in DOMAIN ea.post.nodes : ea.post.nodes[i].space = eb.post.nodes[1].space
+            IN (IF (hasval \/ tr.canonical) => (na = IdFreeNodes(eb.post, Id) /\ eda = edb) THEN {} ELSE {"ISO"})
                \cup (IF atA = AttrSets(eb.post, Id) THEN {} ELSE {"ATTR"})
       [] OTHER -> {"UNKNOWN"}
 
